@@ -12,7 +12,7 @@ PROPS["C18"] = {
 
 T3 = ["hand transcription of read.rs, writer.rs, builder.rs, walk.rs, join_pool.rs, trace.rs, atom.rs into coq/Model/*.v, tied to the code by the correspondence suites (harness/src/bin/corr.rs -> coq/Corr/cases_*.v evaluated by coqc/vm_compute)"]
 PROPS["C08"] = {
-    "deps": ["Proofs/WalkInv.vo", "Proofs/ReaderConf.vo"],
+    "deps": ["Proofs/WalkInv.vo", "Proofs/ReaderConf.vo", "Proofs/BuilderMore.vo", "Proofs/DfsOrderClosed.vo"],
     "props": "Props/C08.v",
     "suites": [("reader", 800, 20000), ("walk", 600, 12000), ("hist", 300, 4000)],
     "assumptions": ["followers are passive: read/walk never inspect a follower's state, so the event list is a function of the input alone (checked by feeding four followers the same input)"],
@@ -75,7 +75,7 @@ PROPS["C11"] = {
 }
 
 PROPS["C12"] = {
-    "deps": ["Proofs/C12_Final.vo"],
+    "deps": ["Proofs/C12_Final.vo", "Proofs/DfsOrderClosed.vo"],
     "props": "Props/C12.v",
     "suites": [("walk", 1000, 30000)],
     "assumptions": ["kinds outside C06's known class (invert_configuration unimplemented) and at most 99 closures open, i.e. the traversal returns Ok"],
@@ -89,7 +89,7 @@ PROPS["C03"] = {
 }
 
 PROPS["C01"] = {
-    "deps": ["Proofs/C01.vo", "Proofs/C09_Final.vo"],
+    "deps": ["Proofs/C01.vo", "Proofs/C09_Final.vo", "Proofs/C01_Text.vo"],
     "props": "Props/C01.v",
     "suites": [("walk", 1000, 30000), ("reader", 600, 12000), ("hist", 400, 8000)],
     "owner": lambda name: name.startswith("C01.") or name in ("C12.rebuilt_graph_is_arrival_first", "C02.built_graph_is_denotation", "C09.history_inverse", "C13.walk_joins_smallest_free"),
@@ -109,6 +109,7 @@ PROPS["C04"] = {
     "props": "Props/C04.v",
     "probes": [{"file": "Probes/Reading.v"}],
     "suites": [("reader", 1600, 40000), ("reader_exh", 0, 22621)],
+    "extra": [extras.c04_deep],
     "assumptions": ["UTF-8 decoding (str::chars) is std; the model's input is the list of code points"],
 }
 PROPS["C05"] = {
@@ -116,6 +117,7 @@ PROPS["C05"] = {
     "props": "Props/C05.v",
     "probes": [{"file": "Probes/Reading.v", "filter": lambda name: name.startswith("C04.token_")}],
     "suites": [("reader", 1600, 40000), ("reader_exh", 0, 22621)],
+    "extra": [extras.c04_deep],
     "assumptions": ["cursors count characters, not bytes (Scanner collects chars())"],
 }
 
@@ -144,7 +146,7 @@ PROPS["C19"] = {
 }
 
 PROPS["C02"] = {
-    "deps": ["Proofs/DenoteFinal.vo"],
+    "deps": ["Proofs/DenoteFinal.vo", "Proofs/C02_Final.vo"],
     "props": "Props/C02.v",
     "suites": [("reader", 1200, 30000), ("hist", 600, 12000)],
     # the reader must replay the syntax that was written (C09's oracle on the implementation) for the denotation of the
